@@ -7,7 +7,7 @@
    climb, climb_rec}).  Specification: PV.Pratt.Shunt = the classical two-stack shunting-yard algorithm
    with the binding powers of the property text.  A token is (rule, payload); a [tree] is what the
    user's closures build when they are free constructors; [Ok t rest] = returned t with rest unconsumed. *)
-From Coq Require Import List Arith.
+From Coq Require Import List Arith Permutation.
 Import ListNotations.
 Require Import PV.Pratt.Syntax PV.Pratt.Model PV.Pratt.Climber PV.Pratt.Shunt.
 Require Import PV.Pratt.Proofs PV.Pratt.WfRegex PV.Pratt.Top.
@@ -58,6 +58,46 @@ Definition C13_fuel_statement : Prop :=
   forall (A : Type) (m : maps) (tbl : table) (ts : list (tok A)), pratt_parse m tbl ts <> OutOfFuel.
 Theorem C13_model_fuel_adequate : C13_fuel_statement.
 Proof. exact pratt_parse_fuel. Qed.
+
+(* The remaining public constructors (the statement above speaks about PrattParser::op, pratt_precedence! and
+   PrecClimber::new): PrecClimber::new_const on a caller's slice, prec_climber![..], and ConstPrattParser::new_const
+   on an arbitrary array.  Levels are unbounded naturals throughout. *)
+Definition C13_constructors_statement : Prop :=
+  forall (A : Type),
+  (* (4) PrecClimber::new_const: ANY slice (entries in any order, any precedence values) with one associativity per
+         precedence value denotes the table  table_of (get)  and climb builds the shunting-yard tree of that table (the
+         PrattParser's tree when the values are >= 1); a slice without a repeated rule gives that tree in EVERY order
+         of its entries ("Entries don't have to be ordered in any way") *)
+  (forall c : climber, cuniform_slice c ->
+     forall ts : list (tok A), well_formed (table_of (climber_get (climber_new_const c))) ts = true ->
+     exists t : tree A,
+       climb (climber_get (climber_new_const c)) ts = Ok t [] /\
+       shunt (table_of (climber_get (climber_new_const c))) ts = Some t /\
+       (table_pos (table_of (climber_get (climber_new_const c))) ->
+        pratt_parse all_maps (table_of (climber_get (climber_new_const c))) ts = Ok t [] /\ yield t = ts) /\
+       (forall c', NoDup (map fst c) -> Permutation c c' ->
+                   climb (climber_get (climber_new_const c')) ts = Ok t [])) /\
+  (* (5) prec_climber![..] builds the very vector PrecClimber::new builds from the same declaration, so clause (3) applies *)
+  (forall d : list mlevel, NoDup (flat_map mrules d) ->
+     climber_macro d = climber_new (cdecl_of_macro d) /\
+     forall ts : list (tok A), well_formed (builder_get (builder_table (pratt_decl (cdecl_of_macro d)))) ts = true ->
+     exists t : tree A,
+       pratt_parse all_maps (builder_get (builder_table (pratt_decl (cdecl_of_macro d)))) ts = Ok t [] /\
+       climb (climber_get (climber_macro d)) ts = Ok t []) /\
+  (* (6) ConstPrattParser::new_const on ANY array it accepts (any number of levels): levels >= 1 and clause (1) holds of its table *)
+  (forall (ops : list (level * bool)) (ct : const_table), new_const ops = inl ct ->
+     table_pos (const_get ct) /\
+     forall ts : list (tok A), well_formed (const_get ct) ts = true ->
+     exists t : tree A,
+       pratt_parse all_maps (const_get ct) ts = Ok t [] /\ yield t = ts /\ shunt (const_get ct) ts = Some t).
+
+Theorem C13_every_constructor : C13_constructors_statement.
+Proof.
+  intros A. split; [|split].
+  - exact (@climber_const A).
+  - exact (@climber_macro_builder A).
+  - exact (@const_any_array A).
+Qed.
 
 (* ---------------------------------------------------------------------------------------------
    Non-vacuity.  Rules: 1 = n (prefix), 2 = a, 3 = b (infix), 4 = q (postfix), 9 = a primary.
@@ -129,5 +169,24 @@ Example C13_ex_panics :
               (builder_get (builder_table C13_ex_decl)) [(9,0); (2,1); (9,2)] = Panic PNoMap.
 Proof. vm_compute. repeat split. Qed.
 
+(* a slice in descending order of its rules, precedences with gaps: new_const finds every operator *)
+Example C13_ex_new_const_any_order :
+  let c : climber := [(7, (40, ARight)); (5, (3, ALeft)); (2, (3, ALeft))] in
+  let ts := [(9,0); (2,1); (9,2); (7,3); (9,4); (7,5); (9,6); (5,7); (9,8)] in
+  let t := Bin (Bin (Leaf (9,0)) (2,1) (Bin (Leaf (9,2)) (7,3) (Bin (Leaf (9,4)) (7,5) (Leaf (9,6))))) (5,7) (Leaf (9,8)) in
+  climb (climber_get (climber_new_const c)) ts = Ok t [] /\ climb (climber_get (climber_new_const (rev c))) ts = Ok t [] /\
+  shunt (table_of (climber_get (climber_new_const c))) ts = Some t.
+Proof. vm_compute. repeat split. Qed.
+(* prec_climber![L 5 | 2, R 7] *)
+Example C13_ex_climber_macro :
+  climber_macro [(ALeft, (5, [2])); (ARight, (7, []))] = [(5, (1, ALeft)); (2, (1, ALeft)); (7, (2, ARight))].
+Proof. vm_compute. reflexivity. Qed.
+(* 30 one-operator levels through new_const: the level numbers keep growing (10, 20, .., 300), nothing wraps *)
+Example C13_ex_thirty_levels :
+  exists ct, new_const (macro_expand (map (fun r => ((r, Infix ALeft), [])) (seq 1 30))) = inl ct /\
+             const_get ct 1 = Some (Infix ALeft, 10) /\ const_get ct 26 = Some (Infix ALeft, 260) /\ const_get ct 30 = Some (Infix ALeft, 300).
+Proof. eexists. split; [vm_compute; reflexivity|]. vm_compute. repeat split. Qed.
+
 Print Assumptions C13_pratt_precedence_correct.
 Print Assumptions C13_model_fuel_adequate.
+Print Assumptions C13_every_constructor.
